@@ -59,6 +59,7 @@ def routes(draw, untyped, equal_totals, f32_exact=False):
     forms = ROUTE_FORMS + (gen.FORMS_F32 if f32_exact else [])
     return {"form": draw(st.sampled_from(forms)),
             "md_none": draw(st.sampled_from(["none", "nones", "empties"])),
+            "md_keys": draw(st.sampled_from(["as-given", "reversed"])),
             "history": draw(st.lists(el, max_size=4)),
             # the content is reached by doubling a table built with halved
             # values in place, after some reads (and followed by the
@@ -148,6 +149,10 @@ def _build_route(spec, route):
                 s[k] = [None] * n
             elif route["md_none"] == "empties":
                 s[k] = [{} for _ in range(n)]
+        elif route.get("md_keys") == "reversed":
+            # the same records, their keys inserted in another order
+            s[k] = [dict(reversed(list(m_.items()))) if q % 2 == 0 and m_
+                    else m_ for q, m_ in enumerate(s[k])]
     halved = route.get("halved") if spec.get("__exact__") else None
     if halved:
         s["rows"] = [[x / 2 for x in r] for r in s["rows"]]
